@@ -35,7 +35,8 @@ T0 = pd.Timestamp('2021-03-01 21:00:00', tz='UTC')
 def run_universe(case):
     q = load()
     assets = case['assets']
-    entries = [None if e is None else T0 + pd.Timedelta(minutes=e) for e in case['entries']]
+    FAR = {'y2300': pd.Timestamp('2300-01-01', tz='UTC'), 'y9999': pd.Timestamp('9999-12-31', tz='UTC')}
+    entries = [None if e is None else (FAR[e] if isinstance(e, str) else T0 + pd.Timedelta(minutes=e)) for e in case['entries']]
     zones = case.get('zones') or []
     for i, z in enumerate(zones):
         if z and i < len(entries) and entries[i] is not None:
@@ -77,10 +78,11 @@ def run_universe(case):
 @st.composite
 def universes(draw):
     assets = draw(st.lists(st.sampled_from(kit.ASSET_POOL), min_size=1, max_size=8, unique=True))
-    entries = [draw(st.one_of(st.none(), st.integers(-3000, 3000), st.sampled_from([0, 1, -1, 60, 1440]))) for _ in assets]
+    entries = [draw(st.one_of(st.none(), st.integers(-3000, 3000), st.sampled_from([0, 1, -1, 60, 1440]),
+                              st.sampled_from(['y2300', 'y9999']))) for _ in assets]      # incl. 'never' sentinels centuries ahead
     qs = []
     for _ in range(draw(st.integers(1, 8))):
-        base = draw(st.sampled_from([e for e in entries if e is not None] or [0]))
+        base = draw(st.sampled_from([e for e in entries if e is not None and not isinstance(e, str)] or [0]))
         qs.append(base * 60 + draw(st.sampled_from([0, 0, 60, -60, 1, -1, 86400 * 400, -86400 * 400])))
     zones = [draw(st.sampled_from([None, None, None, 'America/New_York', 'Asia/Tokyo', 'Europe/London'])) for _ in assets]
     return {'assets': assets, 'entries': entries, 'queries': qs, 'zones': zones}
@@ -179,9 +181,9 @@ def _verify_session(case, r, label):
         keys = set(row) - {'Date'}
         want = set(a for a, e in entry.items() if e is not None and e <= t)
         if split:
-            if keys != set(entry):
-                raise Violation('%s: target allocation at %s covers %s; the session universe is %s' % (
-                    label, t, sorted(keys), sorted(entry)))
+            if not (want <= keys <= set(entry)):
+                raise Violation('%s: target allocation at %s covers %s; members of the alpha model\'s universe are %s' % (
+                    label, t, sorted(keys), sorted(want)))
             for a in keys - want:
                 if row[a] != 0.0:
                     raise Violation('%s: %s has target weight %r at %s but enters the alpha model\'s universe at %s' % (
@@ -233,7 +235,19 @@ def sessions(draw):
     if not rerun and draw(st.sampled_from([False, False, True])):
         # the session itself trades a static universe of every symbol; only the alpha model follows the dated entries
         cfg['alpha_universe'] = cfg['universe']
-        cfg['universe'] = {'kind': 'static', 'assets': sorted(cfg['alpha_universe']['dates'])}
+        if draw(st.booleans()):
+            cfg['universe'] = {'kind': 'static', 'assets': sorted(cfg['alpha_universe']['dates'])}
+        else:
+            # ... or lists each symbol a fortnight later than the alpha model starts to weight it
+            later = {}
+            for a_, v_ in cfg['alpha_universe']['dates'].items():
+                if v_ is None:
+                    later[a_] = None
+                else:
+                    t_ = cal.ts6(v_) + pd.Timedelta(days=14)
+                    later[a_] = [t_.year, t_.month, t_.day, t_.hour, t_.minute, t_.second]
+            cfg['universe'] = {'kind': 'dynamic', 'dates': later}
+            lab = lab + ['session_lists_symbols_later_than_the_alpha_model']
         lab = lab + ['alpha_model_on_its_own_universe']
     return {'cfg': cfg, 'market': mk, 'labels': sorted(set(lab)), 'rerun_shared': rerun}
 
